@@ -15,9 +15,12 @@ VARIABLES phase, hl, frame, raw,     \* the case
 vars == <<phase, hl, frame, raw, res>>
 
 CharAlphabet == {"/", ".", "\\", NUL, "%", "|", "?", "g", "0", "2", "5", "c", "e", "f"}
+\* (26 tokens; the four look-alike classes replaced the low-value tokens .\ %5c %25 %7c, whose
+\*  substrings/decodings the remaining tokens still produce: "/." \o "\", raw "\", "%252e", raw "|")
 TokenStrings == {"/g", "/k", "/z.zip", "/m.mbox", "/s.sh", "/md", "/lk",
-                 "/..", "/.", "//", "\\", ".\\", "|", "?", "..", NUL,
-                 "%2e", "%2f", "%5c", "%00", "%25", "%252e", "%7c",
+                 "/..", "/.", "//", "\\", "|", "?", "..", NUL,
+                 "%2e", "%2f", "%00", "%252e",
+                 LkDot, LkSlash, LkBack, LkTwoDot,
                  "URL:x://", "/MAILDIR-MESSAGE/1", "/MBOX-MESSAGE/1"}
 Tokens == {Q(t) : t \in TokenStrings}
 
@@ -38,6 +41,7 @@ Result(h, fr, r) ==
         o  == Serve(dd, h)
     IN [d |-> dd, cls |-> SelClass(dd), url |-> UrlShaped(dd), hostile |-> Hostile(dd),
         oh |-> o.h, oroute |-> o.route, oresp |-> FrameResp(fr, o), olsel |-> o.lsel,
+        fold |-> FoldWouldEscape(dd),
         mv |-> IF ~NormalFormC(dd) THEN "NormalFormM"
                ELSE IF ~ContainmentC(dd) THEN "ContainmentM"
                ELSE IF ~PrefixClosedC(dd) THEN "PrefixClosedM"
@@ -45,10 +49,11 @@ Result(h, fr, r) ==
                ELSE IF ~FilterGatesC(dd, o) THEN "FilterGatesM"
                ELSE IF ~ClimbIsNotFoundC(dd, o) THEN "ClimbIsNotFoundM"
                ELSE IF ~NoCwdRelativeC(o) THEN "NoCwdRelativeM"
+               ELSE IF ~LiteralPathC(dd) THEN "LiteralPathM"
                ELSE "ok"]
 
 NoResult == [d |-> <<>>, cls |-> "", url |-> FALSE, hostile |-> FALSE, oh |-> "", oroute |-> "", oresp |-> "",
-             olsel |-> <<>>, mv |-> "ok"]
+             olsel |-> <<>>, fold |-> FALSE, mv |-> "ok"]
 
 Init == /\ phase = "new" /\ hl \in Lists /\ frame \in Frames /\ RawOk(raw) /\ res = NoResult
 
@@ -61,7 +66,7 @@ Next == Compute
 Spec == Init /\ [][Next]_vars
 
 \* The design argument proper: must hold whatever the code's recorded deviations are.
-DesignHolds == res.mv \notin {"NormalFormM", "ContainmentM", "PrefixClosedM", "UntaintedM", "FilterGatesM"}
+DesignHolds == res.mv \notin {"NormalFormM", "ContainmentM", "PrefixClosedM", "UntaintedM", "FilterGatesM", "LiteralPathM"}
 \* Clauses that the code's named deviations (NulRaises, ZipCountsAsReal) can falsify are NOT
 \* TLC invariants (TLC would stop at the first of thousands of NUL selectors): their verdict
 \* is the field res.mv, relayed per case by the harness like a trace verdict.
